@@ -831,3 +831,109 @@ func renameCycle(t *testing.T, prop string) {
 		St.Class("renames_whose_source_name_was_rebound_meanwhile")
 	}
 }
+
+// COMMIT of a file held at each of its lock/commit points while another client changes the same file - removes it,
+// cuts it to nothing, or extends it.  Whatever the order, what reaches the disk afterwards must be a well-formed file
+// system that accounts for every block and inode (exact fsck, allocators = bitmaps), also after a restart: a COMMIT
+// that writes back an inode image it took before the other request ran would leave a live inode without a name or an
+// inode that points at freed blocks.  Enumerated: what the other client does x point at which COMMIT is held.
+func TestC04CommitWindow(t *testing.T) {
+	shard, nshards := EnvInt("VERIF_SHARD", 0), EnvInt("VERIF_NSHARDS", 1)
+	St.Exhaustive(true)
+	idx, run, npaused := -1, 0, 0
+	for _, other := range []string{"remove", "cut", "extend", "rename-over"} {
+		for hook := 0; hook < 6; hook++ {
+			idx++
+			if idx%nshards != shard {
+				continue
+			}
+			d := NewDisk(9000)
+			d.SetRecord(false)
+			s := StartSrv(d, true, false)
+			api := s.API()
+			root := s.RootFH()
+			c := api.NFSPROC3_CREATE(nt.CREATE3args{Where: nt.Diropargs3{Dir: root, Name: "f"}})
+			g := api.NFSPROC3_CREATE(nt.CREATE3args{Where: nt.Diropargs3{Dir: root, Name: "g"}})
+			if c.Status != nt.NFS3_OK || g.Status != nt.NFS3_OK {
+				t.Fatalf("setup: CREATE failed")
+			}
+			fh := c.Resok.Obj.Handle
+			api.NFSPROC3_WRITE(nt.WRITE3args{File: fh, Offset: 0, Count: 3 * BlockSize, Stable: nt.UNSTABLE, Data: patternData(41, 3*BlockSize)})
+			mon := s.Mon()
+			reached, othersDone := make(chan struct{}), make(chan struct{})
+			var reachedOnce sync.Once
+			var gid0 uint64
+			var nhook int32
+			paused := false
+			mon.SetYield(func(point string) {
+				if goid() != atomic.LoadUint64(&gid0) {
+					return
+				}
+				if int(atomic.AddInt32(&nhook, 1))-1 != hook {
+					return
+				}
+				paused = true
+				reachedOnce.Do(func() { close(reached) })
+				select {
+				case <-othersDone:
+				case <-time.After(100 * time.Millisecond):
+				}
+			})
+			var st0, st1 nt.Nfsstat3
+			done0 := make(chan struct{})
+			o := Guard(30*time.Second, func() {
+				go func() {
+					defer close(done0)
+					defer reachedOnce.Do(func() { close(reached) })
+					atomic.StoreUint64(&gid0, goid())
+					st0 = api.NFSPROC3_COMMIT(nt.COMMIT3args{File: fh, Offset: 0, Count: 0}).Status
+				}()
+				<-reached
+				switch other {
+				case "remove":
+					st1 = api.NFSPROC3_REMOVE(nt.REMOVE3args{Object: nt.Diropargs3{Dir: root, Name: "f"}}).Status
+				case "cut":
+					st1 = api.NFSPROC3_SETATTR(nt.SETATTR3args{Object: fh, New_attributes: nt.Sattr3{Size: nt.Set_size3{Set_it: true, Size: 0}}}).Status
+				case "extend":
+					st1 = api.NFSPROC3_WRITE(nt.WRITE3args{File: fh, Offset: 20 * BlockSize, Count: 2 * BlockSize, Stable: nt.FILE_SYNC, Data: patternData(42, 2*BlockSize)}).Status
+				case "rename-over":
+					st1 = api.NFSPROC3_RENAME(nt.RENAME3args{From: nt.Diropargs3{Dir: root, Name: "g"}, To: nt.Diropargs3{Dir: root, Name: "f"}}).Status
+				}
+				close(othersDone)
+				<-done0
+			})
+			mon.SetYield(nil)
+			detail := map[string]any{"other_client": other, "COMMIT_held_at_its_lock_or_commit_point": hook, "held": paused, "COMMIT": st0, "other": st1}
+			fail := func(format string, a ...any) {
+				msg := fmt.Sprintf(format, a...)
+				St.Violation("C04", msg, detail)
+				t.Fatalf("C04: %s\n%v", msg, detail)
+			}
+			if o.Slow || o.Bad() {
+				St.Class("run_not_judged")
+				continue
+			}
+			for _, when := range []string{"after both requests returned", "after a restart"} {
+				var ferr error
+				if q := Guard(20*time.Second, func() { s.Quiesce(); ferr = Fsck(s.N.VerifFsState(), FsckOpts{Exact: true, Allocators: true}).Err() }); q.Slow {
+					St.Class("run_not_judged")
+					break
+				} else if q.Bad() || ferr != nil {
+					fail("COMMIT of /f next to %s of the same file, %s: %v %v", other, when, q, ferr)
+				}
+				if when == "after both requests returned" {
+					s.Restart()
+				}
+			}
+			s.Stop()
+			run++
+			if paused {
+				npaused++
+				St.NT(Hash("c04commitwindow", other, hook))
+			}
+			St.Eval(1)
+		}
+	}
+	St.ClassN("commit_window_cases", run)
+	St.ClassN("commit_window_cases_with_the_commit_held", npaused)
+}
